@@ -128,7 +128,7 @@ pub fn run(ctx: &mut Ctx) {
     let fs = ctx.first_shard();
     ctx.rule = "sweep: every rule of public_suffix_list.dat (A-label form) as itself, with 1-3 labels prepended, with its leading label removed and replaced; random: 1-8 labels from the list's label vocabulary and fresh labels, optionally on top of a list rule; structural: arbitrary strings (ASCII/Unicode/empty labels/long/mixed case). Non-trivial = canonical name whose prevailing rule is not the implicit '*'; distinct by name.".into();
     ctx.assumptions = vec![
-        "agreement with the reference is asserted for canonical names (lower-case ASCII / A-labels, no empty label), the documented input domain; other strings get the structural checks only".into(),
+        "agreement with the reference is asserted for every name without empty labels; the reference matches labels literally against the list's A-label rules (so upper-case or Unicode labels match no rule, exactly like in a byte-wise table lookup); strings with empty labels get the structural checks only".into(),
         "the reference converts Unicode rules of the .dat with the idna crate (UTS-46 to-ASCII)".into(),
         "is_effective_tld(\"\") is measured, not asserted".into(),
     ];
@@ -230,12 +230,46 @@ pub fn run(ctx: &mut Ctx) {
         1 => prop_oneof![Just("com"), Just("co.uk"), Just("ck"), Just("www.ck"), Just("xn--55qx5d.cn"), Just("公司.cn"), Just("kawasaki.jp"), Just("city.kawasaki.jp"), Just("*"), Just("!"), Just(" ")].prop_map(|s| s.to_string()),
         1 => (1usize..400).prop_map(|n| "abcdefghij.".repeat(n)),
     ];
-    let strat = proptest::collection::vec(piece, 0..10).prop_map(|v| v.concat());
+    // labels mostly joined by single dots so that most strings are names without empty labels; rule tails are
+    // appended often, in original or mangled case
+    let rule_names2: Vec<String> = psl.rules.iter().map(|r| r.name.clone()).collect();
+    let nr2 = rule_names2.len();
+    let strat = (proptest::collection::vec(piece, 0..6), proptest::bool::weighted(0.75), proptest::option::weighted(0.6, (any::<u16>(), 0u8..4))).prop_map(move |(v, dotted, tail)| {
+        let mut s = if dotted { v.iter().filter(|p| !p.chars().all(|c| c == '.')).cloned().collect::<Vec<_>>().join(".") } else { v.concat() };
+        if let Some((r, mangle)) = tail {
+            let name = &rule_names2[idx(r, nr2)];
+            let t = match mangle {
+                0 => name.clone(),
+                1 => name.to_uppercase(),
+                2 => {
+                    // upper-case the last character of each label
+                    name.split('.').map(|l| { let mut c: Vec<char> = l.chars().collect(); if let Some(x) = c.last_mut() { *x = x.to_ascii_uppercase(); } c.into_iter().collect::<String>() }).collect::<Vec<_>>().join(".")
+                }
+                _ => {
+                    let mut c: Vec<char> = name.chars().collect();
+                    if let Some(x) = c.first_mut() { *x = x.to_ascii_uppercase(); }
+                    c.into_iter().collect()
+                }
+            };
+            if !s.is_empty() { s.push('.'); }
+            s.push_str(&t);
+        }
+        s
+    });
     let n_struct = ctx.tier.pick(100_000u32, 24_000_000u32);
     match search(ctx, 11, n_struct, strat, |ctx, s| {
         ctx.eval();
         check_structural(s)?;
         let empty_label = s.is_empty() || s.split('.').any(|l| l.is_empty());
+        if !empty_label {
+            // any name without empty labels: the rules are matched label by label as they are written in the
+            // list (A-label form), so the reference applies literally to mixed-case and Unicode labels as well
+            let p = check_canonical(psl_ref, s).map_err(|e| format!("{e} [non-canonical name, literal label matching]"))?;
+            if p != Prevailing::Implicit {
+                ctx.nontrivial(s);
+            }
+            ctx.class(&format!("literal/{}", prevailing_name(p)));
+        }
         ctx.class(if empty_label { "structural/empty-label" } else if !s.is_ascii() { "structural/unicode" } else if s.len() > 253 { "structural/long" } else { "structural/other" });
         if s.is_empty() {
             ctx.measure("is_effective_tld_of_empty_string_true", DEFAULT_PROVIDER.is_effective_tld("") as u64);
